@@ -24,6 +24,9 @@ def run(ctx):
         ctx.evaluations += s['cases']; ctx.distinct_nontrivial += s['distinct_nontrivial']; ctx.samples += s['samples'][:2]
         ctx.cov[mode] = {k: v for k, v in s.items() if k not in ('monitor_failures', 'samples')}
         monitor_failures(ctx, s['monitor_failures'], findings, f'h_c04 {mode} monitor', to_replay)
+    # the manifest is looked up under preprocessor_cache_entry_hash_key: byte-exact tie of that key (shared with C02) + metamorphic pairs at that level
+    from checks import C02
+    C02.key_tie(ctx, findings, 4000 if ctx.quick() else 100000, 1500 if ctx.quick() else 40000, own_property=False, relevant=lambda f: any(o.startswith('pre ') for o in f.get('ops', [])))
     if cargo_harness(ctx, ['h_recorder']):
         # second tier: the include recorder (hook H2) on generated line-marker texts over a real directory tree
         n = 3000 if ctx.quick() else 80000
